@@ -6,6 +6,7 @@ import (
 
 	"github.com/NethermindEth/juno/core"
 	"github.com/NethermindEth/juno/core/felt"
+	"github.com/NethermindEth/juno/db"
 	"github.com/NethermindEth/juno/pruner"
 
 	"github.com/cockroachdb/pebble/v2/vfs"
@@ -67,6 +68,7 @@ func C05(c *sim.Ctx) {
 	var ops []opRecord
 	cur := -1
 	readErrOp, readErrAt, readErrBucket, readErrOcc := -1, 0, -1, 0
+	classBucketFault, readErrArmedOnce := false, false
 	if class != 2 {
 		n.FDB.Plan.AfterCommit = func(k int) {
 			images = append(images, crashImage{kind: "after_commit", commit: k, st: n.St.CrashImage(c), opIdx: cur})
@@ -81,6 +83,7 @@ func C05(c *sim.Ctx) {
 		case 3:
 			// the first read of a tape-chosen bucket (first key byte) from a tape-chosen operation on fails
 			// (the j-th distinct bucket the operation reads, its (k+1)-th read: adapts to what is read)
+			readErrArmedOnce = true
 			readErrOp = t.Draw("err.read.op", nOps)
 			readErrBucket = t.Draw("err.read.bucket", 14)
 			readErrOcc = t.Draw("err.read.occurrence", 3)
@@ -147,6 +150,10 @@ func C05(c *sim.Ctx) {
 				desc = "store (a known class supplied again) " + desc[len("store "):]
 				apply = func() error { return n.StoreBlockResupplying(b, known) }
 				c.Probe("known_class_supplied_again")
+				if (readErrOp >= 0 || readErrArmedOnce) && t.Draw("store.resupply.fault", 2) == 1 {
+					// a read fault run: let the fault land on the look-up of that very class
+					classBucketFault = true
+				}
 			} else if class == 2 && t.Draw("store.path", 3) == 2 {
 				// the sequencer path: the node derives root and hash itself and does not verify them
 				// against a declared value - a fault it swallows shows as a wrong block, not as an error
@@ -204,7 +211,11 @@ func C05(c *sim.Ctx) {
 			imgBefore, err = faultdb.Image(n.FDB.Inner)
 			c.Must(err, "image before op")
 		}
-		if readErrOp >= 0 && i >= readErrOp {
+		if classBucketFault {
+			classBucketFault = false
+			bk := db.Class.Key()[0]
+			n.FDB.Plan.FailReadMatch = func(key []byte) bool { return len(key) > 0 && key[0] == bk }
+		} else if readErrOp >= 0 && i >= readErrOp {
 			// armed from the chosen operation on until one operation reads that often
 			if readErrBucket >= 0 {
 				seen, target, have, occ := map[byte]bool{}, byte(0), false, readErrOcc
